@@ -32,6 +32,7 @@ const c19Module = `module m { namespace 'urn:m'; prefix m;
     list l { key k; leaf k { type string; } leaf v { type uint32; } }
     leaf idr { type identityref { base base-id; } }
     leaf un { type union { type uint8; type identityref { base base-id; } type string; } }
+    leaf un2 { type union { type uint8; type identityref { base base-id; } } }
     leaf-list sl { type string; }
     container inner { leaf x { type int8; } }
   }
